@@ -154,11 +154,14 @@ def preparer(kind):
 _serial = [0]
 
 
-def impl_prepare(kind: str, spec, via_cache: bool = False, isolate: bool = True) -> dict:
+def impl_prepare(kind: str, spec, via_cache: bool = False, isolate: bool = True, name: str | None = None,
+                 outcome: str | None = None) -> dict:
     """{"r": prepared|permFail|retry|skip|depSkip|raised, "compile": n, "lookup": m, "msg": …}
-    `isolate`: clean kr8s' class registry afterwards (off inside a sequence case)"""
+    `isolate`: clean kr8s' class registry afterwards (off inside a sequence case);
+    `name`: the cache key (a later definition refers to it); `outcome`: instead of the real preparer, one that
+    answers Retry / PermFail (a definition that is cached in that state, whatever the reason)"""
     try:
-        return _impl_prepare(kind, spec, via_cache)
+        return _impl_prepare(kind, spec, via_cache, name, outcome)
     finally:
         if isolate and kind == "ResourceFunction":
             registry_cleanup()
@@ -167,7 +170,8 @@ def impl_prepare(kind: str, spec, via_cache: bool = False, isolate: bool = True)
 _KEEP: list | None = None     # inside a sequence case: what was prepared stays alive, as it would in an operator
 
 
-def _impl_prepare(kind: str, spec, via_cache: bool = False) -> dict:
+def _impl_prepare(kind: str, spec, via_cache: bool = False, name: str | None = None,
+                  outcome: str | None = None) -> dict:
     import koreo_util as ku
     from koreo import cache
 
@@ -175,7 +179,13 @@ def _impl_prepare(kind: str, spec, via_cache: bool = False) -> dict:
     cls, prep = preparer(kind)
     COUNTS["compile"] = COUNTS["lookup"] = 0
     _serial[0] += 1
-    name = f"under-test-{_serial[0]}"
+    name = name or f"under-test-{_serial[0]}"
+    if outcome:
+        from koreo import result as kres
+
+        async def prep(key, spec_, _o=outcome):   # noqa: F811
+            return (kres.Retry(message="not yet", delay=7, location=key) if _o == "retry"
+                    else kres.PermFail(message="broken", location=key))
     try:
         if via_cache:
             got = ku.run(cache.prepare_and_cache(resource_class=cls, preparer=prep,
@@ -327,7 +337,35 @@ def expr_case_ok(res) -> str | None:
     return None
 
 
+# whole field values (not "=" + expression): nothing, blanks or comments after the prefix, a second prefix, very
+# long lines, several lines with the syntax error on a later one
+DEGENERATE = ["=", "==", "= ", "=\n", "=\n\n", "=//c", "= // only a comment", "=\t \n ", "===",
+              "=1 +\n2 +\n)", "=\n\n1 +", "={'a':\n 1,\n 'b': }", "=" + "inputs.a + " * 1500 + ")",
+              "=" + "(" * 60, "= ", "=\r\n)", "=inputs.a\n//c\n+", "= =", "=\"unterminated", "='" + "''open"]
+
+
+def run_degenerate(ck: Check, r):
+    """each degenerate source as the whole value of every expression-bearing field"""
+    setup_world()
+    for val in DEGENERATE:
+        for kind in KINDS:
+            for slot, place in SLOTS[kind]:
+                spec = base_spec(kind, r)
+                place(spec, val)
+                via = r.random() < 0.2
+                res = impl_prepare(kind, spec, via_cache=via)
+                ck.evaluated()
+                ck.count(f"degenerate:{res['r']}")
+                ck.nontriv(hash(f"{kind}.{slot}:{val}"))
+                bad = expr_case_ok(res)
+                if bad and len(ck.violations) < 200:
+                    ck.violate({"kind": "prepare", "resource": kind, "slot": slot, "spec": encode_case(spec),
+                                "via_cache": via},
+                               f"prepare of {kind} with the field value {val[:40]!r} in {slot} {bad}")
+
+
 def run_expressions(ck: Check, drv: LeanDriver, n: int, r, batch: int = 1500):
+    run_degenerate(ck, r)
     setup_world()
     slots = [(k, nm, f) for k in KINDS for nm, f in SLOTS[k]]
     first = [(None, s) for s in gen_cel.ODD]
@@ -759,13 +797,105 @@ def gen_sequence(r):
     return steps, pure
 
 
+_dep_serial = [0]
+
+ODD_INPUT_EXPRS = ["inputs.x", "inputs2.zone", 'inputs["zone"]', 'inputs[".zone"]', "inputs_extra.y", "inputsX",
+                   "inputs[0]", "inputs.a.b", "inputs", "has(inputs.opt)", "inputs.items.map(i, i.v)", "inputs[inputs.k]",
+                   "steps.x", "parent.y"]
+
+
+def gen_dependency(r, name: str):
+    """a definition other definitions refer to, in some state of health; step None = it does not exist"""
+    kind = r.choice(["ValueFunction", "ValueFunction", "ResourceFunction", "Workflow", "Workflow"])
+    flavour = r.choice(["healthy", "healthy", "absent", "permfail", "cached-retry", "cached-permfail", "not-ready"])
+    step = {"resource": kind, "via_cache": True, "name": name}
+    if flavour == "absent":
+        return kind, flavour, None
+    if flavour in ("cached-retry", "cached-permfail"):
+        step["outcome"] = "retry" if flavour == "cached-retry" else "permfail"
+        step["spec"] = {}
+        return kind, flavour, step
+    if kind == "ValueFunction":
+        exprs = r.sample(ODD_INPUT_EXPRS, r.randint(1, 4))
+        spec = {"return": {f"r{i}": "=" + e for i, e in enumerate(exprs)}}
+        if r.random() < 0.4:
+            spec["locals"] = {"l": "=" + r.choice(ODD_INPUT_EXPRS)}
+        if r.random() < 0.3:
+            spec["preconditions"] = [{"assert": "=" + r.choice(ODD_INPUT_EXPRS) + " != null", "skip": {"message": "s"}}]
+        if flavour == "permfail":
+            spec["return"]["bad"] = "=1 +"
+    elif kind == "ResourceFunction":
+        spec = {"apiConfig": {"apiVersion": "v1", "kind": "ConfigMap", "name": "=inputs.t", "namespace": "ns"}}
+        spec.update(copy.deepcopy(r.choice(list(c14.RF_TMPL.values()))[0]))
+        if flavour == "permfail":
+            spec["return"] = {"bad": "=1 +"}
+    else:
+        ok_step = {"label": "first", "ref": {"kind": "ValueFunction", "name": "vf_ok1"}, "inputs": {"a": "=parent.size"}}
+        spec = {"steps": [ok_step]}
+        if flavour == "permfail":          # rejected by the schema gate: a PermFail is cached
+            spec = {"steps": [{"ref": {"kind": "ValueFunction", "name": "vf_ok1"}}]}
+        elif flavour == "not-ready":       # cached as a Workflow whose steps_ready is an error, each flavour
+            spec = r.choice([
+                {"steps": [ok_step, dict(ok_step)]},                                                    # duplicate label
+                {"steps": [dict(ok_step, inputs={"a": "=steps.later.v"}),
+                           {"label": "later", "ref": {"kind": "ValueFunction", "name": "vf_ok1"}}]},  # forward reference
+                {"steps": [{"label": "waits", "ref": {"kind": "ValueFunction", "name": "vf_missing"}}]},  # Retry
+                {"steps": [{"label": "waits", "ref": {"kind": "ValueFunction", "name": "vf_bad"}}]},      # Retry (unhealthy)
+                {"steps": [dict(ok_step, skipIf="=1 +")]},                                              # parse error
+                {"steps": []},                                                                           # no steps
+            ])
+    step["spec"] = spec
+    return kind, flavour, step
+
+
+def gen_dependent_sequence(r):
+    """first a definition is cached (or not), then definitions that refer to it are prepared"""
+    _dep_serial[0] += 1
+    name = f"dep{_dep_serial[0]}"
+    kind, flavour, first = gen_dependency(r, name)
+    steps = [first] if first else []
+    for _ in range(r.randint(1, 2)):
+        via = r.random() < 0.4
+        users = ["workflow-ref", "workflow-switch"]
+        if kind == "ValueFunction":
+            users += ["overlayRef", "overlayRef", "function-test"]
+        if kind == "ResourceFunction":
+            users += ["function-test"]
+        user = r.choice(users)
+        if user == "overlayRef":
+            given = r.sample(["x", "zone", "a", "y", "k"], r.randint(0, 3))
+            ov = {"overlayRef": {"kind": "ValueFunction", "name": name}}
+            if given:
+                ov["inputs"] = {g: "=inputs." + g for g in given}
+            if r.random() < 0.3:
+                ov["skipIf"] = "=inputs.skip"
+            spec = {"apiConfig": {"apiVersion": "v1", "kind": "ConfigMap", "name": "n", "namespace": "ns"},
+                    "resource": {"data": {"k": "v"}}, "overlays": [ov]}
+            steps.append({"resource": "ResourceFunction", "spec": spec, "via_cache": via})
+        elif user == "workflow-ref":
+            spec = {"steps": [{"label": "uses", "ref": {"kind": kind, "name": name}, "inputs": {"x": "=parent.x"}}]}
+            steps.append({"resource": "Workflow", "spec": spec, "via_cache": via})
+        elif user == "workflow-switch":
+            cases = [{"case": "a", "kind": kind, "name": name, "default": r.random() < 0.5},
+                     {"case": "b", "kind": "ValueFunction", "name": "vf_ok1"}]
+            r.shuffle(cases)
+            spec = {"steps": [{"label": "uses", "refSwitch": {"switchOn": "=parent.kind", "cases": cases}}]}
+            steps.append({"resource": "Workflow", "spec": spec, "via_cache": via})
+        else:
+            spec = {"functionRef": {"kind": kind, "name": name}, "inputs": {"t": r.choice(["a", 5]), "x": 1},
+                    "testCases": [{"expectReturn": {"r0": 1}}, {"inputOverrides": {"t": "b"}, "expectReturn": {"r0": 2}}]}
+            steps.append({"resource": "FunctionTest", "spec": spec, "via_cache": via})
+    return steps, f"{kind}:{flavour}"
+
+
 def run_sequence(steps) -> list:
     """the steps one after the other in one registry lifetime (whatever was prepared stays referenced)"""
     global _KEEP
     registry_cleanup()
     _KEEP = []
     try:
-        return [impl_prepare(st["resource"], st["spec"], via_cache=st.get("via_cache", False), isolate=False)
+        return [impl_prepare(st["resource"], st["spec"], via_cache=st.get("via_cache", False), isolate=False,
+                             name=st.get("name"), outcome=st.get("outcome"))
                 for st in steps]
     finally:
         _KEEP = None
@@ -786,11 +916,16 @@ def run_sequences(ck: Check, drv: LeanDriver, n: int, r):
     setup_world()
     reqs, keep = [], []
     for i in range(n):
-        steps, pure = gen_sequence(r)
+        if i % 2:
+            steps, flavour = gen_dependent_sequence(r)
+            pure = False
+            ck.count(f"dependency:{flavour}")
+        else:
+            steps, pure = gen_sequence(r)
         results = run_sequence(steps)
         ck.evaluated()
         ck.count(f"sequence:len{len(steps)}")
-        ck.count("sequence:" + ("apiVersion-only" if pure else "mixed"))
+        ck.count("sequence:" + ("refers-to-earlier" if i % 2 else "apiVersion-only" if pure else "mixed"))
         for res in results:
             ck.count(f"sequence-step:{res['r']}")
         ck.nontriv(hash(dumps_big(steps, sort_keys=True, default=str)))
@@ -888,7 +1023,7 @@ def run(tier: str) -> int:
     run_specs(ck, drv, 3000 if quick else 100000, r)
     ck.notes.append(f"spec stream: {time.time() - t0:.1f}s")
     t0 = time.time()
-    run_sequences(ck, drv, 400 if quick else 8000, r)
+    run_sequences(ck, drv, 800 if quick else 12000, r)
     ck.notes.append(f"sequence stream: {time.time() - t0:.1f}s")
     return ck.finish(
         rule="expression stream: random CEL expressions of every syntactic shape (incl. index / call / member on "
